@@ -16,7 +16,7 @@ import (
 	"verif/checks/c07/guard"
 )
 
-const rule = "metadata/config: DecodeMetadata and config.Decode into a struct with one field of every supported kind (scalars, pointers, durations, metadata.Duration, duration and string slices, byte sizes, time, custom StringDecoder, nested / squashed / pointer-to structs, maps, interfaces, aliased fields) on EVERY map with one entry and every map with two entries over (field names incl. upper-case and alias spellings and an unknown key) x (value alphabet: nil, \"\", x, 1, -1, 1.5, true, 1h, 1Ki, huge numbers, huge exponents, lists, nested maps and slices, wrong kinds incl. typed nil pointers, pointers, channels, funcs) [quick: pairs over a core of 12 names x 14 values], in 7 input container kinds; Normalize / PrefixedBy on every tree of depth <= 3 over 9 node kinds; Duration.UnmarshalJSON / ToISOString and ByteSize.GetBytes on token alphabets. non-trivial = nil error."
+const rule = "metadata/config: DecodeMetadata and config.Decode into a struct with one field of every supported kind (scalars, pointers, durations, metadata.Duration, duration and string slices, byte sizes, time, custom StringDecoder, nested / squashed / pointer-to structs, maps, interfaces, aliased fields) on EVERY map with one entry and every map with two entries over (field names incl. upper-case and alias spellings and an unknown key) x (value alphabet: nil, \"\", x, 1, -1, 1.5, true, 1h, 1Ki, huge numbers, huge exponents, lists, nested maps and slices, wrong kinds incl. typed nil pointers, pointers, channels, funcs) [quick: pairs over a core of 12 names x 14 values], in 7 input container kinds; Normalize / PrefixedBy on every tree of depth <= 3 over 9 node kinds; Duration.UnmarshalJSON / ToISOString and ByteSize.GetBytes on token alphabets. struct-inputs: structs (values, pointers, pointers to pointers, pointers to interfaces, nil pointers, slice and map members) with a Properties field of every type of a 23-type alphabet (map[string]string, defined map types, maps with defined string key / element types, other maps, nil maps, non-map kinds) in 14 shapes (exact, other case, unexported, absent, promoted through embedded value / pointer / nil pointer / unexported struct, shadowed, tagged) x 12 result arguments (struct and map pointers, nil, non-pointers, nil pointer, *int, *any) into DecodeMetadata, config.Decode, Normalize, PrefixedBy. non-trivial = nil error."
 
 // ---- targets --------------------------------------------------------------------
 
